@@ -35,6 +35,10 @@ CHECKS = {
             "Runtime absence monitor over healthy executions: real 2-16 node clusters in virtual time with per-packet PRNG latency strictly below ProbeTimeout/2, PRNG join order and user operations; the transport tap (every packet and stream decoded by the oracle-side codec), the push/pull states, the per-node dumps every 250 ms, the logs, the event streams and GetHealthScore are all watched for any trace of suspicion, failure declaration, refutation, failed probe or non-zero health. Exploration: 'held on K healthy executions covering these size x latency x config x operation cells'.",
             "Trusts the simulated network's latency bound (strict), the wire codec, synctest. Traffic attempted on an already shut down transport never reached the network and is ignored.",
             "absence monitors on wire tap, dumps, logs, events (virtual time)", "DESIGN.md §3 C04"),
+    "C03": ("E1-simnet (fault-scenario engine)", "exploration",
+            "Runtime monitor of bounded progress in virtual time: crash / hung-process scenarios on real clusters under loss and config variation; an oracle over dump polls and event logs checks for every (survivor, crashed) pair that the leave event arrives within the configuration-derived bound after the last time the survivor could have heard the member alive; a log-based pace monitor checks that every failing probe is given up by its slowest awareness-scaled deadline; a tap-based schedule monitor checks in fault-free stable runs that per-peer probe counts differ by at most 2 and nobody probes itself; an in-process stall detector turns a wedged node (mutex-parked goroutines for minutes) into a violation. The unbounded 'eventually' is restated as this bound; nothing is claimed beyond the executions produced.",
+            "Trusts synctest virtual time, the bound formula (loose by design), 200 ms poll granularity for alive-acceptance tracking (conservative direction), the real-time stall threshold of 90 s (only used to detect a wedged process).",
+            "bounded-liveness oracle + pace/schedule monitors on tap and logs (virtual time)", "DESIGN.md §3 C03"),
 }
 
 NOT_YET = "check not built yet in this round (design in DESIGN.md §3); not claimed until its monitor runs clean on the unchanged tree"
@@ -70,7 +74,7 @@ def main():
             "add_only": True,
         },
         "engines": [
-            {"name": "E1-simnet", "path": "harness/simnet.go", "serves_properties": ["C02", "C04", "C17"], "kind_free_text": "real Memberlist instances on an in-memory transport inside a testing/synctest bubble (virtual time), with wire tap, fault scripts and fake peers"},
+            {"name": "E1-simnet", "path": "harness/simnet.go", "serves_properties": ["C02", "C03", "C04", "C17"], "kind_free_text": "real Memberlist instances on an in-memory transport inside a testing/synctest bubble (virtual time), with wire tap, fault scripts and fake peers"},
             {"name": "E2-model-lockstep", "path": "harness/", "serves_properties": ["C01", "C02", "C06", "C10", "C17", "C18"], "kind_free_text": "PRNG operation sequences against one object with an executable reference model evaluated in lock-step"},
         ],
         "checks": checks,
